@@ -129,7 +129,7 @@ Outcome check_plan(const std::string &prop, const Plan &p)
                 o.twin_pairs++;
                 if (re.viol.set()) {
                         classify(o, prop, re.viol);
-                } else if (!re.desync) {
+                } else if (!re.desync && !re.eng.overrun && !o.res.eng.overrun) {
                         const RunResult &rp = o.res;
                         Violation v;
                         if (re.cmd_units != rp.cmd_units)
@@ -167,13 +167,14 @@ Outcome check_plan(const std::string &prop, const Plan &p)
                                 to.override_init.push_back(b);
                         }
                 if (any) {
-                        to.monitor = false; // the model knows the plan's contents, not the twin's
                         RunResult rt = run_plan(p, to);
                         o.runs++;
                         o.twin_pairs++;
                         Violation v;
                         if (rt.viol.set())
                                 v = rt.viol;
+                        else if (rt.eng.overrun || o.res.eng.overrun || rt.desync || o.res.desync)
+                                ;
                         else if (rt.out != o.res.out)
                                 v = twin_viol("C08", "output-depends-on-write-only-contents", "two runs differing only in the contents of write-only variables produced different output", o.res.out,
                                               rt.out);
@@ -190,7 +191,7 @@ Outcome check_plan(const std::string &prop, const Plan &p)
                 o.twin_pairs++;
                 if (ri.viol.set())
                         classify(o, prop, ri.viol);
-                else if (!ri.desync) {
+                else if (!ri.desync && !ri.eng.overrun && !o.res.eng.overrun) {
                         Violation v;
                         if (ri.cmd_units != o.res.cmd_units)
                                 v = twin_viol("C20", "response-depends-on-earlier-lines", "output for the line sequence differs from the concatenated outputs of the lines fed alone to a fresh parser",
@@ -214,7 +215,10 @@ Outcome check_plan(const std::string &prop, const Plan &p)
                                         v.lockfail = (int)k;
                                 else
                                         v.unlockfail = (int)k;
-                                RunResult rv = run_plan(v, ro);
+                                // page-protection lockset on the fault-free run and on every 16th fault position
+                                RunOpts vo = ro;
+                                vo.lockset = ro.lockset && (k % 16 == 0);
+                                RunResult rv = run_plan(v, vo);
                                 o.runs++;
                                 o.enum_points++;
                                 if (rv.viol.set()) {
